@@ -148,6 +148,7 @@ def run(ctx: Any, prog: Program) -> None:
     ctx.rule('C11.L11', 'de-duplicated string pools are searched for the terminated string and extended by exactly the searched bytes', floor=2)
     ctx.rule('C11.L12', 'a writer that may append to the very list it is writing (find_or_insert on its own view) iterates the live list, so appended elements are written too', floor=1)
     ctx.rule('C11.L14', 'a writer skips a record only when every field that record would carry is at its default', floor=1)
+    ctx.rule('C11.L29', 'a mutable value a reader puts into each record is created per record, never one object made before the record loop', floor=10)
     ctx.rule('C11.L28', 'a side record the reader attaches by subscripting its element list carries the position of its element in the written array', floor=1)
     ctx.rule('C11.L15', 'auxiliary lumps rebuilt by a writer are stored under the same version conditions the reader applies when it reads them', floor=10)
     ctx.rule('C11.L16', 'entity lump: a comma-separated value is taken for an output only when it has exactly the four separators the writer emits', floor=1)
@@ -890,6 +891,76 @@ def run(ctx: Any, prog: Program) -> None:
                                   f'`{U(e_)[:30]}`: {why} - the record is attached to another element when read back', func=f'BSP._lmp_write_{qn[10:]}', text=f'{qn[10:]}: owner index of {side_fmt}')
     if n_owner < 1:
         raise AnalysisError('L28: no side record with an owner index found (one confirmed by hand: the physics blocks of _lmp_write_bmodels)')
+    # ---- L29: per-record mutable values ---------------------------------------------------------------------------------
+    # A Vec/Angle/list made before the record loop and then stored in (or aliased into) every record is one object shared by all of them:
+    # the first in-place change (`[scaling.x, ...] = struct_read(...)`, or the user's own edit) shows in every record.  Inside a record loop a
+    # name bound outside it to a mutable construction may only be used as an accumulator (receiver of append/add/extend/update, subscript
+    # store/load, len()/iteration), never as a value.
+    MUT_CTORS = {'Vec', 'Angle', 'Matrix', 'list', 'dict', 'set', 'bytearray', 'defaultdict', 'OrderedDict', 'Counter', 'deque'}
+    def _mutable_ctor(e: ast.AST) -> bool:
+        if isinstance(e, (ast.List, ast.Dict, ast.Set, ast.ListComp, ast.DictComp, ast.SetComp)):
+            return True
+        if isinstance(e, ast.BinOp) and isinstance(e.op, ast.Mult):
+            return _mutable_ctor(e.left) or _mutable_ctor(e.right)
+        return isinstance(e, ast.Call) and (dotted(e.func) or '').split('.')[-1] in MUT_CTORS
+    n_hoist = 0
+    for qn, fn in ms.items():
+        if not qn.startswith('_lmp_read_') and not qn.startswith('_read_'):
+            continue
+        outer: Dict[str, ast.AST] = {}
+        for st in walk_no_nested(fn):
+            if isinstance(st, ast.Assign) and len(st.targets) == 1 and isinstance(st.targets[0], ast.Name) and _mutable_ctor(st.value):
+                # bound outside every loop?
+                a_ = bsp.parents.get(st)
+                in_loop = False
+                while a_ is not None and a_ is not fn:
+                    if isinstance(a_, (ast.For, ast.While, ast.ListComp, ast.GeneratorExp)):
+                        in_loop = True
+                    a_ = bsp.parents.get(a_)
+                if not in_loop:
+                    outer[st.targets[0].id] = st
+        # rebound anywhere else (a loop that also rebinds it per record is fine: not followed)
+        for st in walk_no_nested(fn):
+            if isinstance(st, (ast.Assign, ast.AnnAssign, ast.AugAssign)):
+                for t_ in (st.targets if isinstance(st, ast.Assign) else [st.target]):
+                    for x in ast.walk(t_):
+                        if isinstance(x, ast.Name) and isinstance(x.ctx, ast.Store) and x.id in outer and outer[x.id] is not st:
+                            del outer[x.id]
+        for lp in [l for l in walk_no_nested(fn) if isinstance(l, (ast.For, ast.While))]:
+            if any(isinstance(bsp.parents.get(lp), (ast.For, ast.While)) for _ in (0,)):
+                pass
+            for nm, st in list(outer.items()):
+                uses = [x for b_ in lp.body for x in ast.walk(b_) if isinstance(x, ast.Name) and x.id == nm and isinstance(x.ctx, ast.Load)]
+                if not uses:
+                    continue
+                bad = None
+                for u in uses:
+                    par = bsp.parents.get(u)
+                    if isinstance(par, ast.Attribute) and par.value is u:
+                        gp = bsp.parents.get(par)
+                        if isinstance(gp, ast.Call) and gp.func is par:
+                            continue            # receiver of a method call: accumulator (or a read such as .copy())
+                        if isinstance(par.ctx, ast.Load):
+                            continue            # reading a component
+                        bad = bad or u          # storing a component of the shared object per record
+                        continue
+                    if isinstance(par, ast.Subscript) and par.value is u:
+                        continue
+                    if isinstance(par, ast.Call) and u in par.args and (dotted(par.func) or '') in ('len', 'enumerate', 'iter', 'sorted', 'reversed', 'zip', 'sum', 'min', 'max', 'tuple', 'list', 'set', 'frozenset', 'bytes', 'any', 'all'):
+                        continue
+                    if isinstance(par, (ast.For, ast.comprehension)) and par.iter is u:
+                        continue
+                    if isinstance(par, ast.Compare) or isinstance(par, (ast.BoolOp, ast.UnaryOp)) or (isinstance(par, (ast.If, ast.While, ast.IfExp)) and par.test is u):
+                        continue
+                    if isinstance(par, ast.Starred):
+                        continue            # unpacked into separate values
+                    bad = bad or u
+                n_hoist += 1
+                ctx.check('C11.L29', bad is None, bsp, bad or lp, f'BSP.{qn} makes `{nm} = {U(st.value)[:40]}` once, before the record loop, and then uses it as a value for every record '
+                          f'(`{U(bsp.parents.get(bad))[:60] if bad is not None else ""}`): all records share that one object, an in-place change to one shows in all', func=f'BSP.{qn}',
+                          text=f'{qn}: `{nm}` made before the record loop is only accumulated into')
+    if n_hoist < 10:
+        raise AnalysisError(f'L29: only {n_hoist} accumulators found in the readers\' record loops (expected at least 10)')
     # ---- L15: auxiliary lumps -----------------------------------------------------------------------------------------------
     n_aux = 0
     for qn, fn in ms.items():
@@ -1065,6 +1136,7 @@ def run(ctx: Any, prog: Program) -> None:
 
 
 MUTANTS = [
+    {'id': 'static_prop_scaling_hoisted', 'file': 'bsp.py', 'find': "        for i in range(prop_count):\n            start = static_lump.tell()", 'replace': "        no_scaling = Vec(1.0, 1.0, 1.0)\n        for i in range(prop_count):\n            start = static_lump.tell()", 'extra': [{'file': 'bsp.py', 'find': "            scaling = Vec(1.0, 1.0, 1.0)\n", 'replace': "            scaling = no_scaling\n"}], 'expect': 'C11.L29', 'note': 'round 11: hoisted per-record Vec'},
     {'id': 'bmodel_phys_index_by_rank', 'file': 'bsp.py', 'find': "        for i, model in enumerate(model_list):\n            yield struct.pack(\n                '<9fiii',", 'replace': "        for i, model in enumerate(model_list, 1):\n            yield struct.pack(\n                '<9fiii',", 'expect': 'C11.L28', 'note': 'round 11: owner index of the physics block'},
     {'id': 'prop_lighting_origin_defaulted_by_flag', 'file': 'bsp.py', 'find': "            flags = StaticPropFlags(flags)\n", 'replace': "            flags = StaticPropFlags(flags)\n            if StaticPropFlags.HAS_LIGHTING_ORIGIN not in flags:\n                lighting_origin = origin.copy()\n", 'expect': 'C11.L27'},
     {'id': 'detail_shape_size_never_written', 'file': 'bsp.py', 'find': "                shape_ang = prop.shape_angle\n                shape_size = prop.shape_size\n", 'replace': "                shape_ang = prop.shape_angle\n                shape_size = 1\n", 'expect': 'C11.L3'},
